@@ -20,7 +20,9 @@ git -C $wt checkout -q -- . ; git -C $wt clean -fdq
 echo "SEED $(basename $sd): demo_on_clean=$clean(0 expected) build=$build(0) demo_with_change=$demo(non-0 expected) suite_with_change=$suite(0)"
 git -C /repo apply $sd/patch.diff || { echo "cannot apply to /repo"; exit 3; }
 start=$(date +%s)
-timeout 1800 /verif/checks/run.sh $prop $tier > /tmp/seed_check.log 2>&1; rc=$?
+# evidence and replays of a run under a seeded change never go to /verif/evidence
+rm -rf /tmp/seed_out; mkdir -p /tmp/seed_out
+VERIF_OUTROOT=/tmp/seed_out timeout 1800 /verif/checks/run.sh $prop $tier > /tmp/seed_check.log 2>&1; rc=$?
 end=$(date +%s)
 git -C /repo checkout -- .
 echo "CHECK $(basename $sd) property=$prop tier=$tier exit=$rc time=$((end-start))s"
